@@ -50,9 +50,121 @@ Example C14_no_device_flush_loses_data :
   img_get (snd (cache_run im im ([DWrite 100 [7; 7; 7; 7]] ++ fst (file_flush false 0 [])))) 100 = 7.
 Proof. vm_compute. split; reflexivity. Qed.
 
+(* ---------------------------------------------------------------- C14 AT IMAGE LEVEL, several files per session
+   (Model/VolSession2.v, Proofs/VolSession2Proofs.v; invariant [Sess2Inv] and [hnode]: Props/C04.v section 6).
+   A handle that is CLEAN has been flushed / dropped after its last modification (C04_session2_settled_clean).  The fact
+   the judge re-checks at every crash point - the decoder shows the file with the flushed content - as a theorem about
+   every later image of the run. *)
+From FatVerif Require Import Model.Time Model.FileM Model.VolSession Model.VolSession2 Spec.Abs Proofs.VolDirProofs
+  Proofs.VolFileProofs Proofs.VolSessionProofs Proofs.VolSession2Proofs Proofs.VolDirFormat Proofs.VolSessionExamples
+  Proofs.VolSession2Examples.
+From FatVerif Require Proofs.TimeProofs Spec.Wf Model.Slot.
+Import ListNotations.
+
+(* once handle i is clean its node - entry, chain, content - is in the decoded root of the image after ANY later steps that
+   are not calls on handle i: calls on the other handles (which allocate, free and write clusters and update the shared
+   FAT), their flushes and drops (which rewrite other slots of the same root region), a second flush of handle i.
+   The hypotheses are closed under prefixes of [ops]: the statement holds for the image after EVERY step of the run *)
+Theorem C14_session2_flushed_survives : forall g, fixed_root_geom g -> forall acc ops st gs es ls i x gh,
+  Sess2Inv g st gs es ls -> nth_error (s2_hs st) i = Some x -> nth_error gs i = Some gh -> s2_dirty x = false ->
+  Forall s2op_ok ops -> Forall (not_op_on i) ops ->
+  let im' := s2_im (fst (s2_run g acc st ops)) in
+  hnode g im' gh = hnode g (s2_im st) gh /\ In (hnode g (s2_im st) gh) (v_root (abs im')) /\
+  In (hnode g (s2_im st) gh) (v_root (abs (s2_im st))).
+Proof. exact s2_flushed_survives. Qed.
+
+(* one step that is not a call on handle i keeps handle i clean, its ghost and its decoded content *)
+Theorem C14_session2_step_keeps_clean : forall g, fixed_root_geom g -> forall acc st gs es ls op i x gh,
+  Sess2Inv g st gs es ls -> s2op_ok op -> not_op_on i op ->
+  nth_error (s2_hs st) i = Some x -> nth_error gs i = Some gh -> s2_dirty x = false ->
+  exists gs' es' x',
+    Sess2Inv g (fst (s2_step g acc st op)) gs' es' ls /\
+    nth_error (s2_hs (fst (s2_step g acc st op))) i = Some x' /\ nth_error gs' i = Some gh /\ s2_dirty x' = false /\
+    vol_content g (s2_im (fst (s2_step g acc st op))) (gh_l gh) (gh_sz gh) = vol_content g (s2_im st) (gh_l gh) (gh_sz gh).
+Proof. exact s2_step_keeps_clean. Qed.
+
+(* WHICH image is durable.  The device is flushed by File::flush / drop only, as the last event of the call
+   (C14_flush_shape), so at the granularity of calls the durable image [s2_durable] is the image the session had right
+   after its last flush / drop step - one of the images of C14_session2_flushed_survives - or the one it started with *)
+Theorem C14_session2_durable_is_flush_image : forall g acc ops st dur,
+  (s2_durable g acc st dur ops = dur /\ Forall no_flush_step ops) \/
+  (exists n j, (n < length ops)%nat /\ nth_error ops n = Some (SFlush j) /\ Forall no_flush_step (skipn (S n) ops) /\
+               s2_durable g acc st dur ops = s2_im (fst (s2_run g acc st (firstn (S n) ops)))).
+Proof. exact s2_durable_cases. Qed.
+
+Theorem C14_session2_flushed_durable : forall g, fixed_root_geom g -> forall acc ops st gs es ls i x gh dur,
+  Sess2Inv g st gs es ls -> nth_error (s2_hs st) i = Some x -> nth_error gs i = Some gh -> s2_dirty x = false ->
+  Forall s2op_ok ops -> Forall (not_op_on i) ops ->
+  In (hnode g (s2_im st) gh) (v_root (abs dur)) ->
+  In (hnode g (s2_im st) gh) (v_root (abs (s2_durable g acc st dur ops))).
+Proof. exact s2_flushed_durable. Qed.
+
+(* ... and through the write-back cache of Model/FlushM.v ([cache_run], C14_durable_is_prefix_image).  A device log
+   REALISES the steps ([log_realises]): one event list per step whose writes take the session's image to the image after
+   the step, followed by a device flush exactly for flush / drop steps.  Then the cache's current image is the session's
+   image and its DURABLE image is [s2_durable] *)
+Theorem C14_session2_cache_is_durable : forall g acc ops logs st cur dur dur0,
+  log_realises g acc st ops logs -> img_same (s2_im st) cur -> img_same dur0 dur ->
+  img_same (s2_im (fst (s2_run g acc st ops))) (fst (cache_run cur dur (concat logs))) /\
+  img_same (s2_durable g acc st dur0 ops) (snd (cache_run cur dur (concat logs))).
+Proof. exact cache_run_realised. Qed.
+
+(* the flush / drop of handle i has returned (current = durable = the session's image); after any realised log of later
+   steps that are not calls on handle i, the DURABLE image - what a power cut then leaves - shows the file as flushed *)
+Theorem C14_session2_flushed_durable_cache : forall g, fixed_root_geom g -> forall acc ops logs st gs es ls i x gh cur,
+  Sess2Inv g st gs es ls -> nth_error (s2_hs st) i = Some x -> nth_error gs i = Some gh -> s2_dirty x = false ->
+  Forall s2op_ok ops -> Forall (not_op_on i) ops -> log_realises g acc st ops logs -> img_same (s2_im st) cur ->
+  In (hnode g (s2_im st) gh) (v_root (abs (snd (cache_run cur cur (concat logs))))).
+Proof. exact s2_flushed_durable_cache. Qed.
+
+(* what [log_realises] asks of a log, one step *)
+Theorem C14_session2_log_realises_means : forall g acc st op ops evs logs,
+  log_realises g acc st (op :: ops) (evs :: logs) <->
+  ((exists ws, evs = ws ++ (if s2_flushes op then [DFlush] else []) /\ writes_only ws /\
+               img_same (apply_events (s2_im st) ws) (s2_im (fst (s2_step g acc st op)))) /\
+   log_realises g acc (fst (s2_step g acc st op)) ops logs).
+Proof. intros. reflexivity. Qed.
+
+(* non-vacuity: the flush step of the model is realised by its own event list (Model/VolSession.v flush_events) *)
+Theorem C14_session2_flush_log_realises : forall g acc st i x, nth_error (s2_hs st) i = Some x ->
+  log_realises g acc st [SFlush i] [flush_events g (sstate_of st x)].
+Proof.
+  intros g acc st i x Hx. cbn [log_realises]. split; [|exact I].
+  exists (if sess_dirty (sh_h x) (sh_en x) then [DWrite (root_slot_off g (en_slot (sh_en x))) (Slot.sfn_encode (sess_entry g (sh_h x) (sh_en x)))] else []).
+  split; [reflexivity|]. split.
+  - intros e He. destruct (sess_dirty (sh_h x) (sh_en x)); [|destruct He]. destruct He as [<-|[]]. eauto.
+  - cbn [s2_step]. rewrite Hx. cbn [fst s2_put s2_im]. rewrite flush_image_eq. cbn [sstate_of s_h s_en s_im].
+    intros o. destruct (sess_dirty (sh_h x) (sh_en x)); reflexivity.
+Qed.
+
+(* the concrete picture (Proofs/VolSession2Examples.v): b is flushed; a keeps growing, is truncated and flushed - the node
+   of b in the decoded root is the very same node before and after *)
+Example C14_session2_example :
+  match vol_session2 ex_U ex_O false ex_vol_im ex_sfi ex2_reqs (ex2_writes ++ [SFlush 1]),
+        vol_session2 ex_U ex_O false ex_vol_im ex_sfi ex2_reqs
+          (ex2_writes ++ [SFlush 1; SOp 0 (FWrite (repeat 8 1200)) ex_clock2; SOp 0 (FSeek (FromStart 600)) ex_clock2;
+                          SOp 0 FTruncate ex_clock2; SFlush 0]) with
+  | Some (st, _), Some (st', _) =>
+    exists nb, nth_error (v_root (abs (s2_im st))) 1 = Some nb /\ nth_error (v_root (abs (s2_im st'))) 1 = Some nb /\
+               (exists eb, nb = NFile eb (Some [3; 5]) ex2_b) /\
+               (exists ea, nth_error (v_root (abs (s2_im st'))) 0 = Some (NFile ea (Some [2; 4]) (firstn 600 (ex2_a ++ repeat 8 1200)))) /\
+               Wf.wf_issues (fun l => l) (s2_im st') = []
+  | _, _ => False
+  end.
+Proof. exact ex2_flushed_survives. Qed.
+
+
 Print Assumptions C14_write_frame.
 Print Assumptions C14_flush_shape.
 Print Assumptions C14_flushed_entry_survives.
 Print Assumptions C14_durable_is_prefix_image.
 Print Assumptions C14_flush_makes_durable.
 Print Assumptions C14_flushed_entry_durable.
+Print Assumptions C14_session2_flushed_survives.
+Print Assumptions C14_session2_step_keeps_clean.
+Print Assumptions C14_session2_durable_is_flush_image.
+Print Assumptions C14_session2_flushed_durable.
+Print Assumptions C14_session2_cache_is_durable.
+Print Assumptions C14_session2_flushed_durable_cache.
+Print Assumptions C14_session2_log_realises_means.
+Print Assumptions C14_session2_flush_log_realises.
